@@ -25,6 +25,16 @@ PROPS = {
         "explanation": "binding-power table pinned (cmp > or > and, not tightest, atoms 0); keyword look-ahead helper proved to test exactly a prefix of the remaining text",
         "assumptions": [],
     },
+    "C02": {
+        "units": {"solver": SOLVER_CORE + ["search", "as_bool", "is_null", "as_str", "as_object", "to_string"]},
+        "explanation": "solve_expression is proved equal to sem3, the denotational semantics written from the rule-language documentation (mapping=and3 in order, sequence=or3, missing field => Missing, only True matches); search is proved equal to search_rel per pattern kind",
+        "assumptions": ["YAML -> expression translation (parse_mapping) is not under contract"],
+    },
+    "C07": {
+        "units": {"solver": ["search"]},
+        "explanation": "search() equals the documented relation per kind over all strings (byte-level model of str); the Aho-Corasick arm is proved to accept exactly when some reported occurrence passes its start/end filter",
+        "assumptions": ["the automaton reports exactly the occurrences of its needles (trusted spec of aho-corasick)", "list batching in parse_mapping is not under contract"],
+    },
     "C06": {
         "units": {"solver": SOLVER_CORE},
         "explanation": "and/or/not/all/of arms of the real solve_expression are proved equal to the truth-table spec (and3/or3/not3/of3 over sems) for groups of any length",
